@@ -76,6 +76,21 @@ func (t *Collection) reclaimMarkUpdate(nloc *nodeLoc,
 	return n
 }
 
+// Marks all the unmarked, cached nodes of a tree as reclaimable.
+// Assumes that the caller holds the rootLock.
+func markTreeReclaimableUnlocked(nloc *nodeLoc, reclaimMark *node) {
+	if nloc.isEmpty() {
+		return
+	}
+	n := nloc.Node()
+	if n == nil || n.next != nil || n == reclaimMark {
+		return
+	}
+	n.next = reclaimMark
+	markTreeReclaimableUnlocked(&n.left, reclaimMark)
+	markTreeReclaimableUnlocked(&n.right, reclaimMark)
+}
+
 func (t *Collection) reclaimNodesUnlocked(n *node,
 	reclaimLater *[3]*node, reclaimMark *node) int64 {
 	if n == nil {
@@ -223,6 +238,7 @@ func (t *Collection) mkRootNodeLoc(root *nodeLoc) *rootNodeLoc {
 	rnl.next = nil
 	rnl.chainedCollection = nil
 	rnl.chainedRootNodeLoc = nil
+	rnl.reclaimTree = false
 	for i := 0; i < len(rnl.reclaimLater); i++ {
 		rnl.reclaimLater[i] = nil
 	}
